@@ -412,6 +412,9 @@ def ctc_stream(ctx):
         base = spec.F("R", [spec.R(0, 1, [spec.F(n)]) for n in ("Xa", "xa", "Yb", "yb")])
         yield "case-twins", dict(root=base, ctcs=[("c0", OP(o, T("Xa"), T("Yb"))), ("c1", OP(o, T("xa"), T("yb")))])
         yield "case-twins", dict(root=base, ctcs=[("c0", OP(o, T("Xa"), T("Yb"))), ("c1", OP(o, T("Xa"), T("Yb")))])
+        # three different constraints under one name (the name is a label, not a key)
+        yield "same-name", dict(root=base, ctcs=[("rule", OP(o, T("Xa"), T("Yb"))), ("rule", OP(o, T("Yb"), T("yb"))),
+                                                 ("rule", OP(o, T("yb"), T("Xa")))])
     trees = list(gen.all_ctc_trees(["A", "B", "C"], gen.LOGICAL, 2))
     step = max(1, len(trees) // (150 if ctx.tier == "quick" else 6000))
     for t in trees[ctx.gen.rng.randrange(step)::step]:
